@@ -29,7 +29,9 @@ func c15Oracle(sp *Spec, x *X, res *mcrt.Result) (string, string) {
 		return "", ""
 	}
 	want := x.FaultText + "\n"
-	if got := x.Debug.String(); x.FaultText == "*" {
+	if sp.DebugNil {
+		// WithDebugOutput(nil): the error goes nowhere; everything else holds as usual
+	} else if got := x.Debug.String(); x.FaultText == "*" {
 		// the terminal was closed: the error text is the operating system's; exactly one line is required
 		if strings.Count(got, "\n") != 1 || !strings.HasSuffix(got, "\n") || len(got) < 2 {
 			return "debug-output", fmt.Sprintf("debug output %q, want exactly one error line", got)
@@ -125,6 +127,32 @@ func c15Programs(tier string) ([]*Spec, [][]string) {
 					}
 				}
 			}
+		}
+	}
+	// the debug output option given as nil (documented to mean: discard)
+	for _, rf := range []string{"auto", "manual"} {
+		for _, site := range []string{"fill", "ext", "write"} {
+			sp := &Spec{Name: "c15-" + site + "-debug-nil", Refresh: rf, Q: -1, DebugNil: true}
+			sp.Bars = []BarSpec{{Total: 5}, {Total: 5}}
+			sp.Main = []Op{{K: "add", B: 0}, {K: "add", B: 1}}
+			for i := 0; i < 2; i++ {
+				ops := []Op{{K: "incr", B: i, N: 1}}
+				if rf == "manual" {
+					ops = append(ops, Op{K: "refresh"}, Op{K: "refresh"}, Op{K: "refresh"})
+				}
+				sp.Clients = append(sp.Clients, ops)
+				sp.Late = append(sp.Late, Op{K: "get", B: i})
+			}
+			switch site {
+			case "fill":
+				sp.Bars[1].FillErrAt = 2
+			case "ext":
+				sp.Bars[1].ExtErrAt, sp.Bars[1].ExtRows = 2, 1
+			case "write":
+				sp.FailWrite = 2
+			}
+			out = append(out, sp)
+			tags = append(tags, []string{"fault:" + site})
 		}
 	}
 	// the output fails in a frame that leaves no line to overwrite: only text (no bars), or pop mode's last pop frame
